@@ -1,6 +1,6 @@
 """B1 for XtCli: argument vectors enumerated by TLC, with the outcome the specification predicts,
 are executed on the real debug and release binaries in a directory of real files."""
-import json, os, pty, re, select, shutil, subprocess, time
+import fcntl, json, os, pty, re, select, shutil, struct, subprocess, termios, time
 import common, cli
 from common import ToolError, WORK
 
@@ -147,6 +147,15 @@ def feed_fifos(argv, cwd, proc):
             try:
                 os.set_blocking(fd, True)
                 os.write(fd, data)
+                # Keep the write end open until the reader has taken everything.  (A reader that is still inside
+                # open() already counts as a reader: without this the bytes could be written, the descriptor closed
+                # and the next turn begun before xt's open() has even returned - it would then read both turns'
+                # bytes through its first descriptor and block for ever in its second open().  Once the pipe is
+                # empty xt's descriptor exists, so `held()` above is reliable for the next turn.)
+                while proc.poll() is None:
+                    if struct.unpack("i", fcntl.ioctl(fd, termios.FIONREAD, b"\0\0\0\0"))[0] == 0:
+                        break
+                    time.sleep(0.002)
             except OSError:
                 pass
             finally:
